@@ -147,6 +147,21 @@ theorem tie_remap_release (s : State) (π : Nat) :
   · intro old hp
     simp [releaseReplaced, hp]
 
+/-- **`ReleasePhysicalPage` (the repair of finding `C10-migration-keeps-replaced-page`).** The page is handed to
+`addSinglePAddr` of the device whose range holds it (`deviceIDByPAddr`, which panics when no device does): the
+model's `releasePage` appends it to the free list of `devOf` (ghost `leaked` − 1) and faults with `noDevice`
+otherwise. The driver calls it from `processPageMigrationRspFromCP` with the frame it remembered when the migrate
+command was sent (C19: `old_frame_released_full`). -/
+theorem tie_release_physical_page (s : State) (p : Nat) :
+    releasePhysicalPage = ["a.devices[a.deviceIDByPAddr(pAddr)]", "pAddr"] ∧
+    (∀ d, devOf s.devs p = some d →
+      releasePage s p = .ok { s with pool := { s.pool with frees := s.pool.frees.modify d (· ++ [p]) },
+                                      leaked := s.leaked - 1 }) ∧
+    (devOf s.devs p = none → releasePage s p = .error .noDevice) := by
+  refine ⟨by decide, ?_, ?_⟩
+  · intro d hd; simp [releasePage, hd]
+  · intro hd; simp [releasePage, hd]
+
 /-- one iteration of the model's loop reads the record with `lookup s.mirror v` BEFORE pushing the new record -/
 theorem tie_remap_iteration (π : Nat) (u : Bool) (v p dev : Nat) (vs ps : List Nat) (s : State) (pt' : List Page)
     (hd : devOf s.devs p = some dev)
